@@ -15,12 +15,13 @@ import (
 // c20Scope is one reconciliation step: a loop over one class of a watcher event, or a whole
 // TrafficController method.
 type c20Scope struct {
-	name       string         // construct role, e.g. "Delete loop"
-	role       string         // delete | create | update | apply
-	loop       *ast.RangeStmt // nil = the whole function
-	needAbsent bool           // Init must be preceded by a failed lookup of the name
-	entity     *types.Var     // the new entity (loop value / *ObjectEntity parameter)
-	key        *types.Var     // the loop key (nil for function scopes)
+	name       string              // construct role, e.g. "Delete loop"
+	role       string              // delete | create | update | apply
+	loop       *ast.RangeStmt      // nil = the whole function
+	needAbsent bool                // Init must be preceded by a failed lookup of the name
+	entity     *types.Var          // the new entity (loop value / *ObjectEntity parameter)
+	entities   map[*types.Var]bool // entity and the parameters of same-package helpers it is handed to
+	key        *types.Var          // the loop key (nil for function scopes)
 
 	fClose, fCloseEnd, fInit, fInherit, fStore, fLock, fOrder, fKeys c20Finding
 	ends                                                             int
@@ -52,13 +53,23 @@ func c20EventLoops(c *core.Ctx, f *flow.Func) map[string]*ast.RangeStmt {
 				return true
 			}
 			fld := c20FieldOf(g, rs.X)
-			if fld == nil && g.Body != f.Body && gfd != nil {
+			if fld == nil && gfd != nil {
+				// a parameter of g (of the handler itself, when it takes the three maps instead of
+				// the event): the class is what the callers in the package pass for it
 				if idx := c20ParamIndex(g, gfd, c20Var(g, rs.X)); idx >= 0 {
 					gObj, _ := g.Info.Defs[gfd.Name].(*types.Func)
-					for _, h := range gs {
-						for _, call := range calls(h.Body, true) {
-							if fo, ok := h.Callee(call).(*types.Func); ok && gObj != nil && fo == gObj && idx < len(call.Args) {
-								fld = c20FieldOf(h, call.Args[idx])
+					for _, file := range g.Pkg.Syntax {
+						for _, d := range file.Decls {
+							hfd, ok := d.(*ast.FuncDecl)
+							if !ok || hfd.Body == nil {
+								continue
+							}
+							for _, call := range calls(hfd.Body, true) {
+								if fo, ok := g.Callee(call).(*types.Func); ok && gObj != nil && fo == gObj && idx < len(call.Args) {
+									if af := c20FieldOf(g, call.Args[idx]); af != nil {
+										fld = af
+									}
+								}
 							}
 						}
 					}
@@ -150,6 +161,39 @@ func c20Handler(c *core.Ctx, f *flow.Func, cons string, scopes []*c20Scope, mute
 				for _, id := range fld.Names {
 					if v, ok := f.Info.Defs[id].(*types.Var); ok && c20IsEntityPtr(v.Type()) {
 						sc.entity = v
+					}
+				}
+			}
+		}
+	}
+	// the entity keeps its identity when it is handed to a same-package helper as an argument
+	for _, sc := range scopes {
+		sc.entities = map[*types.Var]bool{}
+		if sc.entity == nil {
+			continue
+		}
+		sc.entities[sc.entity] = true
+		for round := 0; round < 3; round++ {
+			for _, call := range allCalls {
+				fo, ok := f.Callee(call).(*types.Func)
+				if !ok || fo.Pkg() != f.Pkg.Types {
+					continue
+				}
+				hfd := declOf(f.Pkg, fo)
+				if hfd == nil || hfd.Type.Params == nil {
+					continue
+				}
+				i := 0
+				for _, fld := range hfd.Type.Params.List {
+					for _, id := range fld.Names {
+						if i < len(call.Args) {
+							if a := c20Var(f, call.Args[i]); a != nil && sc.entities[c20Origin(f, a)] {
+								if pv, ok := f.Info.Defs[id].(*types.Var); ok {
+									sc.entities[pv] = true
+								}
+							}
+						}
+						i++
 					}
 				}
 			}
@@ -357,7 +401,7 @@ func c20Handler(c *core.Ctx, f *flow.Func, cons string, scopes []*c20Scope, mute
 	for _, sc := range scopes {
 		counts[sc] = map[string]int{}
 	}
-	var mapFields = map[*c20Scope]map[*types.Var]bool{}
+	var mapFields = map[*c20Scope]map[string]bool{}
 	var keyRenders = map[*c20Scope]map[string]bool{}
 	for _, call := range allCalls {
 		sc := scopeOf(call)
@@ -385,9 +429,14 @@ func c20Handler(c *core.Ctx, f *flow.Func, cons string, scopes []*c20Scope, mute
 				continue
 			}
 			if mapFields[sc] == nil {
-				mapFields[sc], keyRenders[sc] = map[*types.Var]bool{}, map[string]bool{}
+				mapFields[sc], keyRenders[sc] = map[string]bool{}, map[string]bool{}
 			}
-			mapFields[sc][c20FieldOf(f, recv)] = true
+			if fld := c20FieldOf(f, recv); fld != nil {
+				mapFields[sc]["field "+fld.Name()] = true
+			} else {
+				// a map reached through a local / an accessor: identified by the receiver expression
+				mapFields[sc]["expr "+f.Render(recv)] = true
+			}
 			if len(call.Args) > 0 {
 				keyRenders[sc][f.Render(call.Args[0])] = true
 				if sc.key != nil && c20Var(f, call.Args[0]) != sc.key {
@@ -396,7 +445,7 @@ func c20Handler(c *core.Ctx, f *flow.Func, cons string, scopes []*c20Scope, mute
 			}
 			if (op == "Store" || op == "LoadOrStore") && len(call.Args) == 2 {
 				counts[sc]["store"]++
-				if sc.entity == nil || c20RootOrigin(f, call.Args[1]) != sc.entity {
+				if !sc.entities[c20RootOrigin(f, call.Args[1])] {
 					sc.fStore.fail(nil, call, "the value stored in the live map is not the entity being created/updated: the live map keeps (or gets) another generation than the one that was initialised/inherited")
 				}
 			}
@@ -436,7 +485,7 @@ func c20Handler(c *core.Ctx, f *flow.Func, cons string, scopes []*c20Scope, mute
 			}
 		case wkind == "init":
 			counts[sc]["init"]++
-			if sc.entity == nil || c20RootOrigin(f, wrecv) != sc.entity {
+			if !sc.entities[c20RootOrigin(f, wrecv)] {
 				sc.fInit.fail(nil, call, "InitWithRecovery is called on something other than the entity being created")
 			}
 			for _, st := range states {
@@ -456,7 +505,7 @@ func c20Handler(c *core.Ctx, f *flow.Func, cons string, scopes []*c20Scope, mute
 			}
 		case wkind == "inherit":
 			counts[sc]["inherit"]++
-			if sc.entity == nil || c20RootOrigin(f, wrecv) != sc.entity {
+			if !sc.entities[c20RootOrigin(f, wrecv)] {
 				sc.fInherit.fail(nil, call, "InheritWithRecovery is called on something other than the new entity")
 			}
 			var l *c20Lookup
@@ -474,8 +523,8 @@ func c20Handler(c *core.Ctx, f *flow.Func, cons string, scopes []*c20Scope, mute
 			for _, ec := range allCalls {
 				if calleeIs(f, ec, "(*"+c20sv+".Spec).Equals") && len(ec.Args) == 1 {
 					es := ast.Unparen(ec.Fun).(*ast.SelectorExpr)
-					a, b := c20RootOrigin(f, es.X), c20RootOrigin(f, ec.Args[0])
-					if (a == pv && b == sc.entity) || (a == sc.entity && b == pv) {
+					a, b := c20DerivRoot(f, es.X), c20DerivRoot(f, ec.Args[0])
+					if (a == pv && sc.entities[b]) || (sc.entities[a] && b == pv) {
 						eqKeys = append(eqKeys, f.CallKey(ec))
 					}
 				}
@@ -576,7 +625,7 @@ func c20IsEventEntity(f *flow.Func, sc *c20Scope, e ast.Expr) bool {
 		}
 		break
 	}
-	if v := c20Origin(f, c20Var(f, e)); v != nil && v == sc.entity {
+	if v := c20Origin(f, c20Var(f, e)); v != nil && sc.entities[v] {
 		return true
 	}
 	if ix, ok := e.(*ast.IndexExpr); ok {
